@@ -147,11 +147,15 @@ class ScriptedControl(threading.Thread):
             pass
 
 
-def fetch_reply(payload, with_payload=True):
+def fetch_reply(payload, with_payload=True, size="body"):
+    """size: "body" = SIZE header equals the body length (what an honest daemon sends), an int = that value, None = no SIZE header"""
     def reply(fields):
         if fields.get("COMMAND") != "FETCH":
             return b"STATUS:ERROR\nCODE:ERR_UNSUPPORTED_COMMAND\nMESSAGE:scripted endpoint\n\n", b""
-        head = "STATUS:OK\nCODE:OK_FETCH\nSIZE:%d\nSTREAM:CLIENT\n" % len(payload)
+        head = "STATUS:OK\nCODE:OK_FETCH\n"
+        if size is not None:
+            head += "SIZE:%d\n" % (len(payload) if size == "body" else size)
+        head += "STREAM:CLIENT\n"
         if with_payload:
             head += "PAYLOAD-LENGTH:%d\n" % len(payload)
         return (head + "\n").encode(), payload if with_payload else b""
@@ -223,8 +227,17 @@ def c30(ctx):
                 pfile = os.path.join(work, "payload.bin")
                 open(pfile, "wb").write(payload)
                 vs = variants(rng, payload)
+                size_lie = {}
                 if path in ("control-hint", "fallback", "local-daemon"):
                     vs["payloadless-output-names-other-file"] = None   # no body at all; OUTPUT names an existing file with other bytes
+                    # informational headers that disagree with the body: SIZE kept at the genuine length / zero / absent
+                    tail = b"T" * (1 + rng.randrange(16))
+                    vs["extended-with-genuine-SIZE"] = payload + tail
+                    size_lie["extended-with-genuine-SIZE"] = len(payload)
+                    vs["other-with-SIZE-zero"] = bytes((b ^ 0x77) for b in payload) + b"z"
+                    size_lie["other-with-SIZE-zero"] = 0
+                    vs["extended-without-SIZE"] = payload + tail
+                    size_lie["extended-without-SIZE"] = None
                 for vname, vbytes in vs.items():
                     case += 1
                     tag = "c30.%d" % case
@@ -242,6 +255,8 @@ def c30(ctx):
                                 decoy = os.path.join(work, "decoy%d.bin" % case)
                                 open(decoy, "wb").write(bytes((b ^ 0x33) for b in payload) + b"decoy")
                                 scripted = ScriptedControl(payloadless_reply(decoy, len(payload)))
+                            elif vname in size_lie:
+                                scripted = ScriptedControl(fetch_reply(vbytes, size=size_lie[vname]))
                             else:
                                 scripted = ScriptedControl(fetch_reply(vbytes))
                             margs = ["make", "--payload", pfile, "--uri-out", uri_file]
